@@ -589,6 +589,20 @@ func (g *Gen) belowFile() bool {
 		// Rename of an existing file or directory to a name below the regular file (not of an
 		// ancestor of that file: the kernel's answer for a move into the own subtree is EINVAL,
 		// another class of the comparison)
+		if r.Chance(1, 4) {
+			// a MISSING source in an existing directory: rename(2) resolves the directory of the
+			// source, then the directory of the target, before it looks for the source: ENOTDIR
+			if d, ok := g.pick(func(q string, n *absNode) bool { return n.dir }); ok {
+				src := d + "/" + Pick(r, g.names)
+				if d == "/" {
+					src = src[1:]
+				}
+				if _, ex := g.nodes[src]; !ex {
+					g.emit(-1, "Rename %s %s", g.hxp(src), g.hxp(p))
+					return true
+				}
+			}
+		}
 		q, ok := g.pick(func(q string, n *absNode) bool { return q != "/" && q != f && !strings.HasPrefix(f, q+"/") })
 		if !ok {
 			g.emit(-1, "Mkdir %s %d", g.hxp(p), 0o755)
